@@ -972,6 +972,58 @@ def _norm_block(lst, fn):
                 n += 1
                 i += 1
                 continue
+        # if (x := E) ..:   ->   x = E; if x ..:      (the assignment expression is the first thing the test evaluates)
+        if isinstance(st, ast.If):
+            holder = field = idx = None
+            t = st.test
+            chain = [(st, "test", None)]
+            cur = t
+            hops = 0
+            while hops < 6:
+                hops += 1
+                if isinstance(cur, ast.NamedExpr):
+                    break
+                if isinstance(cur, ast.UnaryOp) and isinstance(cur.op, ast.Not):
+                    chain.append((cur, "operand", None))
+                    cur = cur.operand
+                elif isinstance(cur, ast.BoolOp):
+                    chain.append((cur, "values", 0))
+                    cur = cur.values[0]
+                elif isinstance(cur, ast.Compare):
+                    chain.append((cur, "left", None))
+                    cur = cur.left
+                elif isinstance(cur, ast.Call) and isinstance(cur.func, ast.Name) and cur.func.id in ("isinstance", "len", "bool") and cur.args:
+                    chain.append((cur, "args", 0))
+                    cur = cur.args[0]
+                else:
+                    break
+            if isinstance(cur, ast.NamedExpr) and isinstance(cur.target, ast.Name):
+                holder, field, idx = chain[-1]
+                new_name = ast.copy_location(ast.Name(id=cur.target.id, ctx=ast.Load()), cur)
+                if idx is None:
+                    setattr(holder, field, new_name)
+                else:
+                    getattr(holder, field)[idx] = new_name
+                asg = ast.Assign(targets=[ast.Name(id=cur.target.id, ctx=ast.Store())], value=cur.value)
+                ast.copy_location(asg, st)
+                ast.fix_missing_locations(asg)
+                lst.insert(i, asg)
+                n += 1
+                i += 1          # the If is looked at again on the next pass
+                continue
+        # x = A if C else B   ->   if C: x = A  else: x = B
+        if isinstance(st, ast.Assign) and len(st.targets) == 1 and isinstance(st.value, ast.IfExp):
+            e = st.value
+            a1 = ast.Assign(targets=[clone(st.targets[0])], value=e.body)
+            a2 = ast.Assign(targets=[clone(st.targets[0])], value=e.orelse)
+            new = ast.If(test=e.test, body=[a1], orelse=[a2])
+            ast.copy_location(new, st)
+            for r in (a1, a2):
+                ast.copy_location(r, st)
+            ast.fix_missing_locations(new)
+            lst[i] = new
+            n += 1
+            continue
         # return A if C else B   ->   if C: return A  else: return B
         if isinstance(st, ast.Return) and isinstance(st.value, ast.IfExp):
             e = st.value
@@ -1356,6 +1408,14 @@ def namedtuples_to_tuples(asts, ref):
                     types[st.targets[0].id] = [e.value for e in f.elts]
                 elif isinstance(f, ast.Constant) and isinstance(f.value, str):
                     types[st.targets[0].id] = f.value.replace(",", " ").split()
+        for st in mod.body:
+            # class N(NamedTuple):  a: T; b: U      (typing.NamedTuple spelling of the same thing)
+            if isinstance(st, ast.ClassDef) and st.name not in ref_mod_names and len(st.bases) == 1 \
+                    and (getattr(st.bases[0], "id", None) == "NamedTuple" or getattr(st.bases[0], "attr", None) == "NamedTuple") \
+                    and not st.decorator_list:
+                body = [b for b in st.body if not _is_doc(b)]
+                if body and all(isinstance(b, ast.AnnAssign) and isinstance(b.target, ast.Name) and b.value is None for b in body):
+                    types[st.name] = [b.target.id for b in body]
         if not types:
             continue
         # every mention of the type is a complete construction
@@ -1365,6 +1425,16 @@ def namedtuples_to_tuples(asts, ref):
             for n in ast.walk(mod):
                 if isinstance(n, ast.Name) and n.id == N and isinstance(n.ctx, ast.Load):
                     par = getattr(n, "_parent", None)
+                    anc, in_ann = n, False
+                    while getattr(anc, "_parent", None) is not None:
+                        p_ = anc._parent
+                        if (isinstance(p_, ast.AnnAssign) and p_.annotation is anc) or (isinstance(p_, ast.arg) and p_.annotation is anc) \
+                                or (isinstance(p_, (ast.FunctionDef, ast.AsyncFunctionDef)) and p_.returns is anc):
+                            in_ann = True
+                            break
+                        anc = p_
+                    if in_ann:
+                        continue
                     if not (isinstance(par, ast.Call) and par.func is n and not any(isinstance(a, ast.Starred) for a in par.args)
                             and all(k.arg in fields for k in par.keywords)
                             and len(par.args) + len(par.keywords) == len(fields)
@@ -1398,13 +1468,22 @@ def namedtuples_to_tuples(asts, ref):
                 stores = [n for n in occ if isinstance(n.ctx, ast.Store)]
                 if not loads or len(stores) != 1:
                     continue
-                if not all(isinstance(getattr(n, "_parent", None), ast.Attribute) and n._parent.value is n and isinstance(n._parent.ctx, ast.Load)
-                           for n in loads):
+                def is_field(n):
+                    return isinstance(getattr(n, "_parent", None), ast.Attribute) and n._parent.value is n and isinstance(n._parent.ctx, ast.Load)
+
+                def is_splat(n):
+                    p_ = getattr(n, "_parent", None)
+                    return isinstance(p_, ast.Starred) and isinstance(getattr(p_, "_parent", None), ast.Call) and p_ in p_._parent.args
+                if not all(is_field(n) or is_splat(n) for n in loads):
                     continue
-                used = {n._parent.attr for n in loads}
+                used = {n._parent.attr for n in loads if is_field(n)}
                 cands = [N for N, fields in usable.items() if used <= set(fields)]
+                if len(cands) != 1 and not (len(usable) == 1 and not used):
+                    # (a record that is only ever splatted: which type it is is known when the module has a single record type)
+                    if len(cands) != 1:
+                        continue
                 if len(cands) != 1:
-                    continue
+                    cands = list(usable)
                 fields = usable[cands[0]]
                 st = stores[0]
                 par = getattr(st, "_parent", None)
@@ -1416,7 +1495,12 @@ def namedtuples_to_tuples(asts, ref):
                     par.targets[0] = tgt
                 else:
                     par.target = tgt
-                for n in loads:
+                for n in [x for x in loads if is_splat(x)]:
+                    star = n._parent
+                    call = star._parent
+                    k_ = call.args.index(star)
+                    call.args[k_:k_ + 1] = [ast.copy_location(ast.Name(id="%s__%s" % (v, f), ctx=ast.Load()), star) for f in fields]
+                for n in [x for x in loads if is_field(x)]:
                     a = n._parent
                     ap = getattr(a, "_parent", None)
                     new = ast.copy_location(ast.Name(id="%s__%s" % (v, a.attr), ctx=ast.Load()), a)
